@@ -32,6 +32,8 @@ def is_update(n):
 
 def self_field(n, name):
     fp = field_path(n)
+    if fp is None or fp[0] != "self":
+        fp = field_path(resolve(n))      # a local bound to the place (e.g. a parameter of an inlined helper)
     return fp is not None and fp[0] == "self" and fp[2] == name.split(".")
 
 
